@@ -159,6 +159,52 @@ fn check_loc(c: &Case) -> CaseResult {
                 }
             }
         }
+        // a stream with transient failures (WouldBlock, twice in a row at two
+        // places) read by a caller that simply calls again: the I/O errors pass
+        // through, and every other error still has its location inside the input
+        {
+            struct Flaky<'a> {
+                data: &'a [u8],
+                pos: usize,
+                at: [usize; 2],
+                left: [u8; 2],
+            }
+            impl<'a> io::Read for Flaky<'a> {
+                fn read(&mut self, out: &mut [u8]) -> io::Result<usize> {
+                    for i in 0..2 {
+                        if self.pos == self.at[i] && self.left[i] > 0 {
+                            self.left[i] -= 1;
+                            return Err(io::Error::new(io::ErrorKind::WouldBlock, "try again"));
+                        }
+                    }
+                    match (self.data.get(self.pos), out.first_mut()) {
+                        (Some(b), Some(o)) => {
+                            *o = *b;
+                            self.pos += 1;
+                            Ok(1)
+                        }
+                        _ => Ok(0),
+                    }
+                }
+            }
+            let d = digest_of(input) as usize;
+            let n = input.len().max(1);
+            let mut p = lexpr::Parser::from_reader_custom(Flaky { data: input, pos: 0, at: [d % n, (d / 7) % (n + 1)], left: [2, 2] }, opts);
+            let mut io_errors = 0usize;
+            for _ in 0..input.len() + 8 {
+                match p.next_value() {
+                    Ok(None) => break,
+                    Ok(Some(_)) => {}
+                    Err(e) if e.is_io() => {
+                        io_errors += 1;
+                        if io_errors > 6 {
+                            return Err(("transient io-error-repeats".into(), "more I/O errors than the stream produced".into()));
+                        }
+                    }
+                    Err(e) => check_location(input, &e).map_err(|(s, m)| (format!("src=flaky-reader {}", s), m))?,
+                }
+            }
+        }
         // iterated: every error of the stream
         let mut p = lexpr::Parser::from_slice_custom(input, opts);
         for _ in 0..input.len() + 2 {
